@@ -19,6 +19,7 @@ macro_rules! dispatch {
             "C20" => $f(&props::c20::C20 $(, $arg)*),
             "C13" => $f(&props::c13::C13 $(, $arg)*),
             "C08" => $f(&props::c08::C08 $(, $arg)*),
+            "C09" => $f(&props::c09::C09 $(, $arg)*),
             "C10" => $f(&props::c10::C10 $(, $arg)*),
             "C11" => $f(&props::c11::C11 $(, $arg)*),
             "C12" => $f(&props::c12::C12 $(, $arg)*),
